@@ -236,7 +236,7 @@ fn run(cx: &Cx) {
         return cx.machinery_error(format!("S1's reference SDL and Schema::sdl() disagree: {e}"));
     }
     let cnt = Cnt { views: AtomicU64::new(0), with_children: AtomicU64::new(0), agree: AtomicU64::new(0) };
-    let (nodes, deco) = if cx.quick() { (4, 1) } else { (5, 2) };
+    let (nodes, deco) = if cx.quick() { (4, 1) } else { (4, 2) };
     let gcfg = GenCfg { schema: &refs, fields: FIELDS, conds: CONDS, max_nodes: nodes, max_depth: 3, named_fragments: 2, deco: Some(Class::Dev(0)), typename: true, op: OpKind::Query, root_fragments: true };
     let st = explore(
         &ExploreCfg { bounds: [deco, 1, 0, 0], ..Default::default() },
